@@ -144,6 +144,29 @@ Proof.
 Qed.
 Print Assumptions turning.
 
+(* --- 5b. indirect rays that turn over below the surface: tan, sec, n sec / c are unbounded at z_turn (gamma = 0), so the
+   leg [z0, z_turn] is an improper integral; every proper piece [z0, z'] (z' < z_turn) is the difference of the
+   generated closed forms, and these converge, for z' -> z_turn from below, to the value the code computes with the
+   closed form AT z_turn (it is continuous there) --- *)
+Theorem turning_depth_limit : forall s b zt z0,
+  good s -> SPath_beta_tolerance < b -> nzs s zt = b -> z0 < zt ->
+  (forall z', z' < zt ->
+    is_RInt (tan_theta s b) z0 z' (SPath_distance_integral z' b s false - SPath_distance_integral z0 b s false) /\
+    is_RInt (sec_theta s b) z0 z' (SPath_pathlen_integral z' b s false - SPath_pathlen_integral z0 b s false) /\
+    is_RInt (slowness s b) z0 z' (SPath_tof_integral z' b s false - SPath_tof_integral z0 b s false)) /\
+  (filterlim (fun z' => SPath_distance_integral z' b s false - SPath_distance_integral z0 b s false)
+             (at_left zt) (locally (SPath_distance_integral zt b s false - SPath_distance_integral z0 b s false)) /\
+   filterlim (fun z' => SPath_pathlen_integral z' b s false - SPath_pathlen_integral z0 b s false)
+             (at_left zt) (locally (SPath_pathlen_integral zt b s false - SPath_pathlen_integral z0 b s false)) /\
+   filterlim (fun z' => SPath_tof_integral z' b s false - SPath_tof_integral z0 b s false)
+             (at_left zt) (locally (SPath_tof_integral zt b s false - SPath_tof_integral z0 b s false))).
+Proof.
+  intros s b zt z0 G Hb Ht Hz. split.
+  - intros z' Hz'. exact (turning_leg_proper s b zt z0 G Hb Ht Hz z' Hz').
+  - exact (turning_leg_limit s b zt z0 G Hb Ht).
+Qed.
+Print Assumptions turning_depth_limit.
+
 (* --- 6. arrival: what brentq returned is the parameter `root`, what it guarantees is a hypothesis --- *)
 Theorem arrives :
   (* conversion_preserves_beta_thm *)
@@ -221,12 +244,11 @@ Theorem numeric_tracer :
   (forall p (f : R -> R),
   Path_direct p = true -> 0 < Path_dz p -> Rabs (BPath_z1 p - BPath_z0 p) < Path_dz p ->
   BPath_z_integral p f = 0) /\
-  (* numeric_direct_r_step *)
-  (forall tr angle b,
+  (* numeric_direct_r_step: _direct_r is a trapezoid sum of some integrand on the linspace grid with its ACTUAL step *)
+  (forall tr angle, exists f : R -> R, forall b,
   BTracer_direct_r tr angle b None =
     (let n := Rtrunc (Rabs ((BTracer_z1 tr - BTracer_z0 tr) / Tracer_dz tr)) in
-     trapz_dx (map (fun z => tan (asin (sin angle * BTracer_n0 tr / AntarcticIce_index (Tracer_ice tr) z)))
-                   (linspace (BTracer_z0 tr) (BTracer_z1 tr) (n + 1)))
+     trapz_dx (map f (linspace (BTracer_z0 tr) (BTracer_z1 tr) (n + 1)))
               (linspace_step (BTracer_z0 tr) (BTracer_z1 tr) (n + 1)) - b)).
 Proof.
   split. { exact trapz_between_sums. }
@@ -234,7 +256,8 @@ Proof.
   split. { exact grid_step_bounds. }
   split. { exact numeric_direct_grid_lemma. }
   split. { exact numeric_direct_degenerate_lemma. }
-  { intros. reflexivity. }
+  { intros tr angle. eexists. intros b. unfold BTracer_direct_r, linspace_retstep. cbv beta iota zeta.
+    rewrite ?map_map. reflexivity. }
 Qed.
 Print Assumptions numeric_tracer.
 
